@@ -177,6 +177,10 @@ def apply_op(root, enc, at, op):
         set_tag("hex", "0x-1")
     elif op == "tag-hex-huge":
         set_tag("hex", "0xFFFFFFFFFFFFFFFFFF")
+    elif op == "tag-hex-wide-own":
+        set_tag("hex", "0x%07X" % (0x1000000 + own_tag))
+    elif op == "tag-hex-wide-unregistered":
+        set_tag("hex", "0x1540001")
     elif op == "tag-number":
         set_tag("rawjson", "4325385")
     elif op == "tag-null":
@@ -477,6 +481,17 @@ def judge_c02(ctx, rows):
     return n
 
 
+def judge_c20(ctx, rows):
+    """the result of decoding a document is a function of the document: eight decodes of the same bytes in one process agree"""
+    n = 0
+    for c, s, x in rows:
+        n += 1
+        if x["first"]["Outcome"] != x["second"]["Outcome"] or x["first"].get("Bin") != x["second"].get("Bin") or x.get("again_differs"):
+            ctx.violation("text:%s:decode-result-varies-between-calls:%s" % (c["enc"], c["op"]), "%s %s at %s: decoding the same bytes again gives another result: %s vs %s (%s of 6 further decodes differ from the first)" % (
+                c["enc"], c["op"], c["node"]["n"], x["first"], x["second"], x.get("again_differs")), {"case": c, "doc": s["doc"][:20000]})
+    return n
+
+
 def judge_c04(ctx, rows, bases):
     """documents that are still conformant notations of the same message must decode to the same binary"""
     n = 0
@@ -525,5 +540,15 @@ def judge_c18(ctx, rows):
                           {"case": c, "doc": s["doc"][:20000]})
         elif o.get("Fix") not in ("ok", None, ""):
             ctx.violation("text:%s:no-fixed-point:%s" % (c["enc"], o["Fix"].split(":")[0] + ":" + o["Fix"].split(":")[1][:40]), "%s: the document is accepted but re-encoding the accepted value does not reach a fixed point: %s" % (where, o["Fix"][:300]),
+                          {"case": c, "doc": s["doc"][:20000]})
+    # ... and what the untyped decoder (ttlv.Value) accepts: more documents than the typed one (any tag in any position)
+    for c, s, x in rows:
+        g = x.get("generic") or {}
+        if g.get("Outcome") != "value":
+            continue
+        n += 1
+        where = "%s %s at %s (%s)" % (c["enc"], c["op"], c["node"]["n"], c["doc"])
+        if g.get("Fix") not in ("ok", None, ""):
+            ctx.violation("text:%s:untyped:no-fixed-point:%s" % (c["enc"], g["Fix"].split(":")[0] + ":" + g["Fix"].split(":")[1][:40]), "%s: the untyped decoder accepts the document but re-encoding the accepted value does not reach a fixed point: %s" % (where, g["Fix"][:300]),
                           {"case": c, "doc": s["doc"][:20000]})
     return n
